@@ -3,6 +3,8 @@
 package streams
 
 import (
+	"strings"
+
 	"github.com/klauspost/cpuid"
 
 	"verifharness/hx"
@@ -122,6 +124,12 @@ func c06CrossGen(g *hx.Gen) {
 		cs := make([]c06Cfg, n)
 		for i := range keys {
 			keys[i] = hx.Pick(g.Rng, hostPats) + hx.Pick(g.Rng, []string{"", ":443", ":443/x"})
+			if g.Rng.Chance(1, 4) {
+				// written with capitals (the path stays as it is): TLS.Hostname is the lower-case host the loader derives
+				hp := strings.SplitN(keys[i], "/", 2)
+				hp[0] = strings.ToUpper(hp[0])
+				keys[i] = strings.Join(hp, "/")
+			}
 			cs[i] = policies[g.Rng.Intn(len(policies))]
 			if g.Rng.Chance(1, 2) {
 				cs[i] = policies[0]
